@@ -1351,6 +1351,12 @@ class Model:
         seeds = jax.random.split(seed, len(dists))
 
         for dist, seed in zip(dists, seeds):
+            # the inputs of the distribution must reflect the values drawn so far,
+            # also if the model does not update automatically
+            input_names = [n.name for n in (*dist.inputs, *dist.kwinputs.values())]
+            if input_names:
+                self.update(*input_names)
+
             tfp_dist = dist.init_dist()
 
             event_shape = tfp_dist.event_shape
